@@ -283,7 +283,7 @@ impl Check for C03 {
         "C03"
     }
     fn ncases(&self, tier: Tier) -> u64 {
-        tier.sz(2500, 30000)
+        tier.sz(12000, 150000)
     }
     fn rule(&self) -> &'static str {
         "one generated grammar per case (ambiguous expression grammars with random %left/%right/%nonassoc levels and %prec overrides, multi-way reduce/reduce, dangling else, random grammars; %expect/%expect-rr right, wrong or absent); every (state, token) cell re-derived from closed item sets + edges + the abstract grammar's precedences and compared with action(); reported conflict lists compared with the expected default-rule resolutions; for a third of the cases CTParserBuilder::build must succeed iff the conflict counts equal %expect/%expect-rr (default 0). Non-trivial = table has a cell with >= 2 candidate actions; distinct by normalised grammar."
@@ -296,7 +296,7 @@ impl Check for C03 {
         ]
     }
     fn floor(&self, tier: Tier) -> u64 {
-        tier.sz(400, 5000)
+        tier.sz(2000, 20000)
     }
     fn required_counters(&self, _t: Tier) -> Vec<&'static str> {
         vec!["sr_default_shift", "sr_prec_shift", "sr_prec_reduce", "sr_nonassoc_error", "rr_cells", "rr_cells_3way", "ct_builds_ok", "ct_builds_refused", "expect_declared_nonzero_but_no_conflicts"]
